@@ -712,3 +712,26 @@ def matrix_order(facts):
                     "cell (a, a) is never cleared and survives into the next node that reuses the id")
     o.r.floor = 2
     return o.r
+
+
+def id_iterator(facts):
+    o = Obl("FLOW-IDITER", "MatrixGraph's IdIterator skips removed ids in a LOOP (several adjacent removed ids are all skipped) and yields an id only under "
+                           "id < upper_bound")
+    for b in o.need_fn(facts, "«matrix_graph::IdIterator as core::iter::Iterator»::next"):
+        succ = b.cfg()[0]
+        n = 0
+        for i, t in b.calls():
+            if last_seg(t["f"]["path"]) == "contains" and "IndexSet" in norm_path(t["f"]["path"]):
+                n += 1
+                inloop = i in reach(b, succ[i][0]) if succ[i] else False
+                o.check(b, "skip-loop#%d" % n, t["line"], inloop, "the removed-id test is re-evaluated after each skip (loop)",
+                        "the removed-id test is evaluated once only: with two adjacent removed ids the second one is yielded as if it were live")
+        o.check(b, "has-skip", b.line, n >= 1, "%d removed-id test(s)" % n, "no removed_ids.contains test found")
+        k = 0
+        for i, j, st in return_some_sites(b):
+            k += 1
+            ok = any(isinstance(e, tuple) and e[0] == "bin" and e[1] == "Lt" and truth is True and ("field", "upper_bound") in leaves(e[3])
+                     for (e, truth, src) in dom_atoms(b, i))
+            o.check(b, "yield#%d" % k, st["line"], ok, "yields only under id < upper_bound", "an id is yielded without the `< upper_bound` test")
+    o.r.floor = 3
+    return o.r
